@@ -8,6 +8,8 @@ import (
 	"reflect"
 	"sort"
 	"strings"
+	"sync/atomic"
+	"time"
 )
 
 // Edge is one exported model transition: the spanning-tree path of its source
@@ -48,6 +50,25 @@ type Report struct {
 	Mismatches   []Mismatch     `json:"mismatches"`
 	Samples      []interface{}  `json:"samples"`
 	ActionCounts map[string]int `json:"action_counts"`
+	Hung         int            `json:"hung"` // replays abandoned because a Broker call did not return
+}
+
+var hungTotal atomic.Int64
+
+// guarded runs one replay under a watchdog: a Broker call that never returns must not take the replayer with it.
+func (r *replayer) guarded(path []Action, last *Action, f func()) {
+	if hungTotal.Load() >= 3 {
+		return // the Broker hangs: what is left of the export is not replayed (reported through Hung)
+	}
+	fin := make(chan struct{})
+	go func() { f(); close(fin) }()
+	select {
+	case <-fin:
+	case <-time.After(10 * time.Second):
+		hungTotal.Add(1)
+		r.rep.Hung++
+		r.mismatch(Mismatch{Props: []string{"C12", "C05"}, What: "a Broker call did not return within 10 s while this history was replayed (every node returns at once): a failed or completed call left the Broker locked", Path: path, Action: last, Expected: "returns", Observed: "blocked"})
+	}
 }
 
 type replayer struct {
@@ -435,7 +456,8 @@ func Run(cfg *Config, edgesFile, walksFile string, maxSamples int) (*Report, err
 			go func() {
 				r := &replayer{cfg: cfg, rep: &Report{ByProp: map[string]int{}, ActionCounts: map[string]int{}}, seenNT: map[string]bool{}}
 				for e := range ch {
-					r.runEdge(e)
+					e := e
+					r.guarded(e.P, &e.A, func() { r.runEdge(e) })
 				}
 				done <- r
 			}()
@@ -460,6 +482,7 @@ func Run(cfg *Config, edgesFile, walksFile string, maxSamples int) (*Report, err
 			rp.rep.Nontrivial += r.rep.Nontrivial
 			rp.rep.MismatchN += r.rep.MismatchN
 			rp.rep.DriftN += r.rep.DriftN
+			rp.rep.Hung += r.rep.Hung
 			for k, v := range r.rep.ByProp {
 				rp.rep.ByProp[k] += v
 			}
@@ -482,7 +505,7 @@ func Run(cfg *Config, edgesFile, walksFile string, maxSamples int) (*Report, err
 			if err := decodeLine(line, &steps); err != nil {
 				return fmt.Errorf("bad walk line: %w", err)
 			}
-			rp.runWalk(steps)
+			rp.guarded(nil, nil, func() { rp.runWalk(steps) })
 			rp.rep.Walks++
 			if len(rp.rep.Samples) < maxSamples && rp.rep.Walks%50 == 1 {
 				var acts []Action
